@@ -76,7 +76,7 @@ def run(ctx):
         "proved for BOTH reachable near-earth-normal leaves (leaf 1: e0 > 1e-4; leaf 3: e0 <= 1e-4 with delta-omega = delta-M = 0): coefficients, secular/drag/long-period update, finishing map, every Newton exit (Kepler residual < 1e-12), uniqueness of the Kepler solution and |Ew - E*| <= 1e-12 / (1 - sqrt eL2), state and units. Leaves 0 and 2 (|1 + cos i| < 1.5e-12) are proved unreachable for inclinations with four decimals (the TLE column)",
         "proved over the reals (props/C01_accuracy.v): for a <= 4 earth radii (a near-earth orbit has a0 < 1.93, so this is the whole range in which the model keeps a within a factor of two of its epoch value) and eL^2 <= 4/25, on every converged exit each coordinate of the returned position is within 1e-6 km, and of the returned velocity within 1e-9 km/s, of the report's at the exact solution of Kepler's equation (Lipschitz constants 570000 km/rad and 460 (km/s)/rad in E + omega)",
         "proved over the reals (props/C01_newton.v): for eL^2 <= 4/25 the regenerated iterates are the second-order step f / (f' + f'' f / 2f'), the first-step clamp is inactive, each step squares the error (factor 43/50), the sixth stopping test cannot fail, so exit 10 (no convergence, last iterate returned unchecked) is unreachable and the 1 mm / 1 um/s claim holds for EVERY answered propagation with a <= 4 (C01_answered_position_accuracy, both leaves)",
-        "proved (C01_answered_when_healthy*, C01_iss_answered): decay guards, eL^2 <= 4/25 and osculating perigee >= 1.005 earth radii imply that the propagation IS answered; the ISS set at epoch meets every hypothesis of the accuracy theorem (interval arithmetic), so none of the theorems is vacuous",
+        "proved (C01_answered_when_healthy*, C01_iss_answered): decay guards, eL^2 <= 4/25 and osculating perigee >= 1.005 earth radii imply that the propagation IS answered; the ISS set at epoch meets every hypothesis of the accuracy theorem (interval arithmetic), so none of the theorems is vacuous; input-only form (C01_accuracy_at_epoch_or_drag_free): an accepted set with e0 <= 0.39 and TLE mean motion 6.4..18 rev/day, at epoch or drag-free at any time, is answered within 1 mm / 1 um/s of the report",
         "not proved: convergence of the Newton iteration for eL^2 > 4/25 (e above about 0.4); binary64 rounding -- both sampled by the oracle",
         "translator trusted for 'emitted term = what the code computes over R'; self-checked each run against the interpreter (outcome class and state to 1e-6 km)",
     ]
